@@ -16,7 +16,7 @@
    join (theorems 1-9).  It is REFUTED -- witness exhibited, guarded version proved -- for
      Pandas (null keys match null keys) and SQLite FULL (rows with a null key collapse).  SQLite RIGHT (key lists were
      read against the wrong sides), Pandas CROSS (an empty side was NULL-extended) and Polars FULL (right-only rows lost
-     their key) were found by this check and are repaired in /repo (786497c, 8737d6e, c106ad7 + its follow-up); the models
+     their key) were found by this check and are repaired in /repo (786497c, 8737d6e, c106ad7 + 5c7bd4d); the models
      describe the repaired code, and theorems 9 and 12 keep the refutations of the old behaviour. *)
 From Coq Require Import List Bool Arith ZArith QArith String Permutation.
 Import ListNotations.
